@@ -445,10 +445,19 @@ def run_t5(repo: Repo, res: Result) -> None:
         eff, _notes = method_effects(repo, name)
         effects[name] = eff
         marker_fields |= {k for k in eff if k.startswith(".")}
-    # the subject/object marker: the (one) Rule field outside the configuration that the fluent methods set to constants
+    # the subject/object marker: the (one) Rule field outside the configuration that the fluent methods set to constants;
+    # its values are private vocabulary: whatever `modules_that()` stores means "subjects next", any other value "objects next"
     marker = next(iter(marker_fields)) if len(marker_fields) == 1 else None
+    subjects_next = effects["modules_that"].get(marker) if marker else None
+    object_values = {repr(effects[n].get(marker)) for n in FLUENT_EFFECTS if n != "modules_that" and marker in effects[n]}
+
+    def marker_value(v):
+        if v == subjects_next:
+            return True
+        return False if len(object_values) == 1 and repr(subjects_next) not in object_values else v
+
     for name, want in FLUENT_EFFECTS.items():
-        got = {("_next" if k == marker else k): v for k, v in effects[name].items()}
+        got = {("_next" if k == marker else k): (marker_value(v) if k == marker else v) for k, v in effects[name].items()}
         m = repo.lookup_method(rule, name)
         res.add(
             "C01.T5",
